@@ -13,7 +13,9 @@
    Silent harness-side cells (never in the trace):
      cell 3        "handle given up": a join/tryjoin/detach returned SUCCESS
      cell 4        number of times the target fiber was handed to free()
-   Trace loc 600 (kind 919, value 1000): fiber_destroy() freed the target.   *)
+   Trace loc 600 (kind 919, value 1000): fiber_destroy() freed the target.
+   Case params: [0] drain_max, [1] 1 = unguarded, [2] 1 = repaired fiber_detach/fiber_join
+   (commit 4ff1f32, the current code), 0 = the code before it (regression of F-C04a).   *)
 From Coq Require Import List ZArith Lia Bool Arith.
 From LF Require Import Conc T1K.
 Import ListNotations.
